@@ -49,7 +49,7 @@ Definition config_set_int_c (c : cctx) (name : string) (value : Z) : outcome (cc
          | None => Ok (c, c_ERROR)
          | Some (op', eng') =>
            let e1 := ml_set_engine e (engine_of_N eng') in
-           match ml_set_options e1 (to_ed_options op') with
+           match ml_set_options mdf_ops e1 (to_ed_options op') with
            | Ok e2 => Ok (with_ed c e2, c_OK)
            | Err x => Err x | Panic s => Panic s | OutOfFuel => OutOfFuel
            end
@@ -87,18 +87,18 @@ Definition parse_bopomofo (s : list N) : list N := parse_while (split_ws s []).
 Definition userphrase_add (c : cctx) (phrase bopomofo : list N) : outcome (cctx * Z) :=
   let syls := parse_bopomofo bopomofo in
   if Nat.ltb 11 (List.length syls) then Ok (c, 0)
-  else match ml_learn (cx_ed c) syls phrase with
+  else match ml_learn mdf_ops (cx_ed c) syls phrase with
        | Ok r => Ok (with_ed c (fst r), if snd r then c_TRUE else c_FALSE)
        | Err x => Err x | Panic s => Panic s | OutOfFuel => OutOfFuel
        end.
 
 Definition userphrase_lookup (c : cctx) (phrase bopomofo : list N) : Z :=
   let syls := parse_bopomofo bopomofo in
-  if existsb (fun p => text_eqb (fst p) phrase) (do_user_lookup md_ops (dict (sh (cx_ed c))) syls) then c_TRUE else c_FALSE.
+  if existsb (fun p => text_eqb (fst p) phrase) (do_user_lookup mdf_ops (dict (sh (cx_ed c))) syls) then c_TRUE else c_FALSE.
 
 Definition userphrase_remove (c : cctx) (phrase bopomofo : list N) : outcome (cctx * Z) :=
   if negb (Z.eqb (userphrase_lookup c phrase bopomofo) c_TRUE) then Ok (c, c_FALSE)
-  else match ml_unlearn (cx_ed c) (parse_bopomofo bopomofo) phrase with
+  else match ml_unlearn mdf_ops (cx_ed c) (parse_bopomofo bopomofo) phrase with
        | Ok e => Ok (with_ed c e, c_TRUE)
        | Err x => Err x | Panic s => Panic s | OutOfFuel => OutOfFuel
        end.
